@@ -1,11 +1,13 @@
 CONSTANTS
   GenOps <- OpNames
-  GenCtx = {"top", "open", "skip", "rec", "mac", "rept", "struct", "sect"}
+  GenCtx = {"top", "open", "skip", "rec", "mac", "rept", "struct", "sect", "ltop", "lnarrow", "lshort"}
   GenClasses = {"empty", "0", "1", "m1", "h31", "h32", "h63", "m63", "str", "lstr", "chr", "float", "hfloat",
                 "undef", "fwd", "unterm", "paren"}
   AllClasses = {"0", "m1", "h31", "h63", "lstr", "empty", "float", "undef"}
   MaxPos = 3
   BigCounts = {129, 257, 476, 477, 600}
+  GenCounts = {"c4", "c5", "c6", "c127", "c128", "c129", "c255", "c256", "c257", "c511", "c512", "c513", "c1000",
+               "c5000", "c32767", "c65536"}
 INIT Init
 NEXT Next
 VIEW View
